@@ -42,6 +42,13 @@ TXNS = [
     {"description": "A|B x", "amount": 1.0, "date": D(2023, 1, 1), "field": {"memo": "netflix"}, "source": "AMEX"},
     {"description": "Pen", "amount": 0.25, "date": D(2025, 2, 1), "field": None, "source": "amex"},
     {"description": "O'REILLY-AUTO * 9", "amount": 12.5, "date": D(2025, 1, 19), "field": {"memo": "123"}, "source": "Amex"},
+    # twins of earlier transactions: same description, different amount / date / fields / source (a result must never be
+    # carried over from one to the other)
+    {"description": "NETFLIX.COM 123", "amount": -7.0, "date": D(2024, 12, 1), "field": {"memo": "other", "type": "ach"}, "source": "chase"},
+    {"description": "UBER EATS", "amount": 250.0, "date": D(2025, 12, 6), "field": {"memo": "REF 9"}, "source": "Amex"},
+    # literal regex metacharacters in the description (substring functions are not regexes)
+    {"description": "AMZN*MKTP (US) PARK+RIDE AMAZON.COM", "amount": 20.0, "date": D(2025, 3, 9), "field": {"memo": "a.b"}, "source": "Amex"},
+    {"description": "AMZNNMKTP PARKKRIDE AMAZONXCOM", "amount": 20.0, "date": D(2025, 3, 9), "field": {"memo": "axb"}, "source": "Amex"},
 ]
 ORDERS = {"orders": [{"item": "Book", "amount": 99.75, "date": D(2025, 1, 15)}, {"item": "Pen", "amount": 0.25, "date": D(2025, 2, 1)},
                      {"item": "book club", "amount": 100.0, "date": D(2024, 12, 31)}],
@@ -52,6 +59,7 @@ VARS = {"threshold": 100, "tagname": "UBER"}
 LITS = ['"NETFLIX"', '"netflix"', '"UBER"', '""', '"X"']
 STR0 = ["description", "field.memo", "source", "tagname"] + LITS
 NUM0 = ["amount", "0", "2", "100", "99.75", "month", "threshold"]
+METAS = ['"AMZN*MKTP"', '"AMAZON.COM"', '"PARK+RIDE"', '"(US)"', '"(US"', '"MKTP ("', '"[x"', '"a|b"', '"$"', '"^"', '"."', '"\\\\"']
 PATS = ['"NETFLIX"', '"UBER\\\\s(?!EATS)"', '"^AMAZON"', '"A|B"', '"\\\\d{3}"', '"\\\\D{3}"', '"uber\\\\S"']
 
 
@@ -87,6 +95,10 @@ def bool1():
         for l in LITS + ['"uber eats"', '"OREILLYAUTO"', '"spaced out"']:
             out.append(f"{f}({l})")
             out.append(f"{f}(field.memo, {l})")
+    for l in METAS:
+        out += [f"contains({l})", f"startswith({l})", f"anyof({l})", f"anyof(\"zzz\", {l})", f"anyof({l}, \"(\")", f"{l} in description",
+                f"contains(field.memo, {l})", f"normalized({l})", f"fuzzy({l})"]
+    out += ['anyof("A.B", "zzz")', 'contains(field.memo, "A.B")', 'anyof(field.memo, "q", "A.B")' if False else 'anyof("PARK+RIDE", "AMZN*MKTP")']
     for l in LITS:
         out.append(f"anyof({l}, \"GAS\")")
         out.append(f"{l} in description")
@@ -150,6 +162,11 @@ def rows_exprs():
             "next((r for r in orders if r.amount > 1000), None) == None", "sum([r.amount for r in orders], 1)",
             "all(r.amount > 0 for r in orders) and any(r.item == \"PEN\" for r in orders)",
             "[r.item for r in orders if r.date == date]", "[r.item for r in orders if r.date <= \"2025-01-15\"]",
+            "[r.item for r in orders if r.date == \"2025-01-15\"]", "any(r.date == \"2025-02-01\" for r in orders)", "sum(r.amount for r in orders if r.date == \"2024-12-31\")",
+            "next((r.item for r in orders if r.date == txn.date), \"none\")", "[r.item for r in orders if \"2025-01-15\" == r.date]", "[r.item for r in orders if r.date != \"2025-01-15\"]",
+            "[r.item for r in orders if r.date == date and r.amount == amount]", "[r.item for r in orders if r.amount == amount and r.date == \"2025-01-15\"]",
+            "len([r for r in orders if r.item == \"BOOK\"])", "len([r for r in orders if r.item == description])", "[r.amount for r in orders if r.amount == 100]",
+            "[r.item for r in orders if r.amount == \"99.75\"]",
             "next((amount for amount in orders), 0) != 0 and amount > 100", "any(r.amount > 50 for r in orders) and r_missing == 1 or true",
             "(n := len(orders)) and n + n", 'any(r.item == "lamp" for r in items)', 'next((r.item for r in items), "none")',
             'next((r.item for r in items if r.amount == amount), "none")', "all(r.amount > 100 for r in items)", 'any(r.item == "rug" and r.amount == amount for r in items)',
@@ -298,12 +315,27 @@ def real_eval(e, t):
         return "crash", f"{type(ex).__name__}: {ex}"[:100]
 
 
-def ref_eval(e, t):
+def ref_eval(e, t, bare=False):
     import copy
     try:
-        return "ok", norm(REF.evaluate(e, dict(t, field=dict(t["field"]) if t["field"] is not None else None), dict(VARS), copy.deepcopy(ORDERS)))
+        return "ok", norm(REF.evaluate(e, dict(t, field=dict(t["field"]) if t["field"] is not None else None), None if bare else dict(VARS),
+                                       None if bare else copy.deepcopy(ORDERS)))
     except Exception as ex:  # noqa
         return "undefined", type(ex).__name__
+
+
+def real_eval_bare(e, t):
+    """The same expression evaluated the way a caller without variables / supplemental sources does."""
+    from tally.expr_parser import evaluate_transaction, ExpressionError
+    try:
+        return "ok", norm(evaluate_transaction(e, txn_for_real(t)))
+    except ExpressionError as ex:
+        return "error", str(ex)[:80]
+    except Exception as ex:  # noqa
+        return "crash", f"{type(ex).__name__}: {ex}"[:100]
+
+
+_NEEDS_ENV = ("threshold", "tagname", "orders", "items")
 
 
 def check_ref(case):
@@ -326,6 +358,22 @@ def check_ref(case):
                                  "case": {"kind": "ref", "exprs": case["exprs"]}})
             else:
                 outcomes.add("agree:" + rv[0])
+        if any(w in e.lower() for w in _NEEDS_ENV):
+            continue
+        # second pass over all transactions without variables / sources (one expression, many transactions in a row)
+        for ti, t in enumerate(TXNS):
+            rk, rv = ref_eval(e, t, bare=True)
+            if rk != "ok":
+                continue
+            evals += 1
+            nontrivial += 1
+            gk, gv = real_eval_bare(e, t)
+            if gk != "ok" or gv != rv:
+                outcomes.add("MISMATCH")
+                if len(viol) < 25:
+                    viol.append({"kind": "differs-from-reference", "detail": {"expression": e, "txn": ti, "transaction": t, "reference": rv, "real": (gk, gv),
+                                                                              "mode": "no variables, no supplemental sources"},
+                                 "case": {"kind": "ref", "exprs": case["exprs"]}})
     return {"evals": evals, "nontrivial": nontrivial, "outcomes": sorted(outcomes), "violations": viol,
             "sample_repr": {"expressions": case["exprs"][:5]}}
 
